@@ -224,8 +224,11 @@ def cleanupCalls (s : State) : State :=
 
 /-! ## operations -/
 
+/-- `ValidateExternalAddr` for the 0x-address chains: `0x` + 40 hex digits (only the length is modelled) -/
+def validAddr (a : String) : Bool := a.length == 42
+
 def doSend (s : State) (sender : Addr) (dest : String) (token : Token) (amount fee : Nat) : State × Res :=
-  if amount = 0 ∨ fee = 0 ∨ ¬ token < s.nTokens then (s, .err)
+  if amount = 0 ∨ fee = 0 ∨ ¬ token < s.nTokens ∨ validAddr dest = false then (s, .err)
   else if getBal s.bal (sender, token) < amount + fee then (s, .err)
   else
     ({ s with nextTxId := s.nextTxId + 1,
@@ -260,7 +263,7 @@ def lastBatch (t : Token) (bs : List Batch) : Option Batch :=
     then some b else acc) none
 
 def doReqBatch (s : State) (token : Token) (minFee baseFee : Nat) (feeReceive : String) : State × Res :=
-  if minFee = 0 ∨ ¬ token < s.nTokens ∨ outgoingTxBatchSize = 0 then (s, .err) else
+  if minFee = 0 ∨ ¬ token < s.nTokens ∨ outgoingTxBatchSize = 0 ∨ validAddr feeReceive = false then (s, .err) else
   let sel := pick token baseFee outgoingTxBatchSize s.pool
   let notProfitable : Bool := match lastBatch token s.batches with
     | some lb => decide (totalFee sel.1 < totalFee lb.txs)
@@ -277,6 +280,8 @@ def doReqBatch (s : State) (token : Token) (minFee baseFee : Nat) (feeReceive : 
                 pool := if pickRemovesFromPool then sel.2 else s.pool }, .ok s.nextBatchId)
 
 def doBridgeCall (s : State) (sender refund : Addr) (to data memo : String) (coins : List (Token × Nat)) : State × Res :=
+  -- `MsgBridgeCall.ValidateBasic`: valid `to`; coins and data not both empty
+  if validAddr to = false ∨ (coins = [] ∧ data = "") then (s, .err) else
   match debitAll s.nTokens sender coins s.bal with
   | none => (s, .err)
   | some bal' =>
@@ -333,7 +338,10 @@ def step (s : State) : Op → State × Res
   | .bridgeCall a r to d m cs => doBridgeCall s a r to d m cs
   | .observe h ev => doObserve s h ev
   | .exec n => doExec s n
-  | .setParams p => if p.avgBlockTime = 0 ∨ p.avgExtBlockTime = 0 then (s, .err) else ({ s with params := p }, .ok 0)
+  | .setParams p =>
+    -- `Params.ValidateBasic`
+    if p.avgBlockTime < 100 ∨ p.avgExtBlockTime < 100 ∨ p.batchTimeout < 60000 ∨ p.callTimeout ≤ 3600000 then (s, .err)
+    else ({ s with params := p }, .ok 0)
   | .block n => ({ s with fxHeight := s.fxHeight + n }, .ok 0)
 
 def run (s : State) (ops : List Op) : State := ops.foldl (fun s op => (step s op).1) s
